@@ -10,13 +10,14 @@ from lib.flow import Failure
 MANIFEST = {
     "text": "Theorems C18_* (Coq) on the driver skeleton: what ti prints is a function of the target file's check-round steps "
             "and of the recorded definitions of the target file only — nothing a preloaded file does is printed, no line "
-            "names a preloaded file, and definitions recorded while preloads were parsed yield no -i hint (repaired code). "
+            "names a preloaded file, and definitions recorded while preloads were parsed yield no -i hint (repaired code); and when all rows of the target's steps and definitions "
+            "move by k (a k-line prefix) every printed line moves by k and nothing else changes (C18_rows_rebased). "
             "That the evaluator treats preload + target like the concatenation is evaluated end-to-end: generated programs "
             "split at top-level statement boundaries into 1-3 preload files plus a target, compared with the analysis of "
             "the concatenation restricted to the target's rows (rebased).",
     "note": "Partial: the equality with the concatenation rests on the evaluator (global state carried across files, "
             "parser-local state irrelevant at statement boundaries); that part is exploration.",
-    "technique": "Coq proof over the driver model (output = function of the target's steps); correspondence by vm_compute on "
+    "technique": "Coq proof over the driver model (output = function of the target's steps; equivariance under row shifts); correspondence by vm_compute on "
                  "hook-driven scripts with preloads; metamorphic split-vs-concatenation runs of ti",
 }
 REQUIRES = ["Model/Driver.v"]
